@@ -147,6 +147,20 @@ CLAIMED['C11'] = {
           '(F-C11-2). Not covered: continuation-line variants of parenthesised lists, backend output bytes (only the description is compared).',
   'design': '7.3 (C11)',
 }
+CLAIMED['C07'] = {
+  'text': 'Compatible evolution, partly proved: determine_struct_tree_subtype is proved (z3) to read an unknown subtype as the base struct '
+          'exactly when decoding leniently under a catch-all base and to refuse it otherwise; the encoders (C05) and the primitive / list / map / '
+          'nullable decoders (C06) it composes are proved against Enc / Dec. The property itself -- a relation between two spec versions -- is '
+          'NOT proved: two versions A, B of a spec (B = A + an optional and a defaulted field, fields in nested structs, two new tags of an open '
+          'union, a Void tag given a type, a new subtype under a catch-all struct, a new route, an alias introduced for a field type) are '
+          'compiled with the generator of the tree; every message encoded under B from generated values is decoded under A and compared with '
+          'an independent A-view projection (unknown fields dropped, unknown tags -> other, unknown subtypes -> base struct, payloads of tags A '
+          'knows as Void ignored), strict decoding under A must refuse exactly the messages whose projection dropped something, and every '
+          'message encoded under A must decode under B (strict and lenient) to a value that re-encodes to the same message -- BOUNDED stand-ins.',
+  'note': 'Proved: determine_struct_tree_subtype (+ C05/C06 carriers). Bounded: json_compat_obj_decode under the two relations on 600 / 8000 '
+          'generated messages each. One pair of spec versions; renaming of types is not exercised (names do not appear on the wire).',
+  'design': '7.3 (C07)',
+}
 NOT_YET = {
  'C01': 'not decided by this technique in this revision: acceptance <=> language rules is a property of the whole frontend (ply lexer / LALR tables, '
         'the parser actions and the ten resolution passes of ir_generator.py, ~2000 lines over mutable AST/IR graphs), which is outside the Python '
@@ -154,8 +168,6 @@ NOT_YET = {
         'contracts/ir_types.py) and one layer does not decide the property',
  'C02': 'not decided: a whole-pipeline property (AST -> IR faithfulness across all passes). Proved pieces exist (ApiNamespace.add_route keeps the by-name '
         'tables equal to the route list) but the passes that build the description are outside the VC generator; not claimed on that basis',
- 'C07': 'not decided: needs lemmas over Enc/Dec for pairs of type descriptions including structs and unions; the composite round-trip induction over the '
-        'recursive specification functions did not go through the merge-mode evaluator (see C04), so these lemmas are not available',
  'C12': 'not applicable to this technique: determinism across processes, hash seeds and output directories is a relation between runs; a function '
         'contract can state order-insensitivity of one function over a set, which was planned for the anchor list but needs a model of set iteration '
         'order that the engine does not have',
